@@ -261,3 +261,28 @@ def fold_private_writers(F, touched, is_allowed):
             del touched[fn]
             changed = True
     return touched, folded
+
+
+def empty_edges(body, field):
+    """CFG edges on which the collection stored in struct field `field` is known to be empty, however the test is
+    spelled: `x.is_empty()` true, `!x.is_empty()` false, `x.len() == 0`, `x.len() > 0` false, `0 < x.len()` false"""
+    out = []
+    for bi, f, t, atom in guards.bool_switches(body):
+        if f == t:
+            continue
+        if atom[0] == "call" and atom[1].endswith("::is_empty"):
+            if any(fl == field for a in atom[2]["args"] for _, fl in guards.slice_of_operand(body, a)["fields"]):
+                out.append((bi, t))
+        elif atom[0] == "cmp":
+            for tgt in (f, t):
+                rel = relation_on_edge(body, bi, tgt)
+                if not rel:
+                    continue
+                op, sa, sb, _ = rel
+                a_len = any(fl == field for _, fl in sa["fields"]) and any(c.endswith("::len") for c in sa["callees"])
+                b_len = any(fl == field for _, fl in sb["fields"]) and any(c.endswith("::len") for c in sb["callees"])
+                a_zero = any(str(c).startswith("0_") for c in sa["consts"]) and not sa["fields"]
+                b_zero = any(str(c).startswith("0_") for c in sb["consts"]) and not sb["fields"]
+                if (a_len and b_zero and op in ("Eq", "Le")) or (b_len and a_zero and op in ("Eq", "Ge")):
+                    out.append((bi, tgt))
+    return out
